@@ -20,24 +20,26 @@ def docFormula (F : Fmt) (a b : Int) (rel abs : Nat) : Bool :=
 def exactFormula (a b : Int) (rel abs : Nat) : Bool :=
   decide ((b - a).natAbs * 2 ^ UNIT ≤ max (max a.natAbs b.natAbs * rel) (abs * 2 ^ UNIT))
 
-/-- per-position tolerance demanded by the documentation:
-    number → that number; per-component array (shape = entry shape) → component `i mod rowSize`;
-    scaled → base · (largest magnitude in either field), one rounding; default → eps / 0. -/
-def tolAt (F : Fmt) (t : Tol) (a b : NdArr) (i : Nat) : Option Nat :=
+/-- per-position tolerance demanded by the documentation (`none` = not defined for these
+    operands):  number → that number;  per-component array (its shape must be the entry shape)
+    → component `i mod rowSize`;  scaled → base · (largest magnitude in either field), rounded
+    once, per component when requested;  default → machine epsilon of the format. -/
+def specTol (F : Fmt) (t : Tol) (a b : NdArr) : Option (Nat → Nat) :=
   match t with
-  | .num u => some u
-  | .arr s us => if s == a.shape.tail then us[i % max a.rowSize 1]? else none
-  | .dflt => some (epsUnits F)
+  | .num u => some fun _ => u
+  | .arr s us => if s == a.shape.tail then some fun i => us.getD (i % max a.rowSize 1) 0 else none
+  | .dflt => some fun _ => epsUnits F
   | .scaled base =>
     if a.data.isEmpty ∨ b.data.isEmpty then none
-    else rndMag f64 ((base.getD (epsUnits F)) * max (maxAbsUnits a) (maxAbsUnits b)) UNIT
+    else match rndMag f64 ((base.getD (epsUnits F)) * max (maxAbsUnits a) (maxAbsUnits b)) UNIT with
+      | none => none
+      | some p => some fun _ => p
   | .scaledComp base =>
     if a.data.isEmpty ∨ b.data.isEmpty then none
     else
-      let c := i % max a.rowSize 1
-      match (maxAbsComp a)[c]?, (maxAbsComp b)[c]? with
-      | some x, some y => rndMag f64 (max x y * base) UNIT
-      | _, _ => none
+      let ps := (List.zipWith max (maxAbsComp a) (maxAbsComp b)).map fun m => rndMag f64 (m * base) UNIT
+      if ps.any Option.isNone then none
+      else some fun i => (ps.map (·.getD 0)).getD (i % max a.rowSize 1) 0
 
 /-- C01 spec for two float64 arrays: compatible shapes and the documented formula everywhere -/
 def fuzzySpec (rel abs : Tol) (a b : NdArr) : Option Bool :=
@@ -47,12 +49,11 @@ def fuzzySpec (rel abs : Tol) (a b : NdArr) : Option Bool :=
     let shp := if a.shape.length ≥ b.shape.length then a.shape else b.shape
     let a' := { a with shape := shp }
     let b' := { b with shape := shp }
-    let n := a.data.length
-    let rs := (List.range n).map fun i =>
-      match tolAt f64 rel a' b' i, tolAt f64 abs a' b' i with
-      | some r, some t => some (docFormula f64 (a.data.getD i 0) (b.data.getD i 0) r t)
-      | _, _ => none
-    if rs.any Option.isNone then none else some (rs.all (· == some true))
+    match specTol f64 rel a' b', specTol f64 abs a' b' with
+    | some r, some t =>
+      some ((List.range a.data.length).all fun i =>
+        docFormula f64 (a.data.getD i 0) (b.data.getD i 0) (r i) (t i))
+    | _, _ => none
 
 /-- C09 spec: identical shapes (mod trailing 1-axis) and identical entries -/
 def exactSpec (a b : NdArr) : Bool :=
